@@ -1068,3 +1068,20 @@ _K_POW = 'f"pow(Tgas/300.0, {b})" if b else "",'
 BENIGN.append({"name": "kida-unit-exponent-written-without-pow", "file": K, "old": _K_POW, "new": '("(Tgas/300.0)" if b == 1 else f"pow(Tgas/300.0, {b})") if b else "",'})
 MUTANTS += [{"name": "kida-negative-exponent-dropped", "file": K, "old": _K_POW, "new": '("(Tgas/300.0)" if b == 1 else f"pow(Tgas/300.0, {b})") if b > 0 else "",', "rules": ["R3"]},
             {"name": "kida-half-exponent-inverted", "file": K, "old": _K_POW, "new": '("1.0/sqrt(Tgas/300.0)" if abs(b) == 0.5 else f"pow(Tgas/300.0, {b})") if b else "",', "rules": ["R3"]}]
+
+# R5 (shared with C06.R1) in the spelling "statement records": a dataclass holds the pieces, a method of it writes the text
+_RA_OLD = ('        rateassign = [\n            "\\n".join(\n                [\n                    f"if ({trange}) {{",\n                    f"{rate_sym}[{ridx}] = {rateexpr};",\n'
+           '                    f"}}",\n                ]\n            )\n            if trange\n            else f"{rate_sym}[{ridx}] = {rateexpr};"\n'
+           '            for ridx, (trange, rateexpr) in enumerate(zip(tranges, rateexprs))\n        ]\n\n        return rateassign\n')
+_RA_CLS = ('@dataclass\nclass _Stmt:\n    symbol: str\n    index: int\n    window: str\n    expr: str\n\n    def code(self) -> str:\n        assign = f"{self.symbol}[{self.index}] = {self.expr};"\n'
+           '        if not self.window:\n            return assign\n        return "\\n".join([f"if ({self.window}) {{", assign, f"}}"])\n\n\n')
+
+
+def _stmt_records(index):
+    return [{"file": TLF, "old": _RA_OLD, "new": '        stmts = [_Stmt(rate_sym, ' + index + ', trange, rateexpr) for ridx, (trange, rateexpr) in enumerate(zip(tranges, rateexprs))]\n\n'
+             '        return [stm.code() for stm in stmts]\n'},
+            {"file": TLF, "old": "class TemplateLoader:\n", "new": _RA_CLS + "class TemplateLoader:\n"}]
+
+
+BENIGN.append({"name": "assign-rates-statement-records", "edits": _stmt_records("ridx")})
+MUTANTS.append({"name": "assign-rates-statement-records-shifted-index", "edits": _stmt_records("ridx + 1"), "rules": ["R5"]})
